@@ -187,10 +187,8 @@ impl NtpDuration {
         // the safe option.
         assert!(self.duration >= 0);
 
-        // Although saturating is safe to do, it probably still
-        // should never happen in practice, so ensure we will
-        // see it when running in debug mode.
-        debug_assert!(self.duration <= 0x0000FFFFFFFFFFFF);
+        // Note: this does happen in practice, a server that has not been
+        // synchronized for days has a root dispersion above 65536 seconds.
 
         match self.duration > 0x0000FFFFFFFFFFFF {
             true => 0xFFFFFFFF_u32,
